@@ -50,12 +50,17 @@ type pubCase struct {
 
 var pubCfg = map[string][]byte{"C1": []byte("config-list-one"), "C2": []byte("config-list-two!"), "old": []byte("an old list")}
 
-func concParam(p string) string {
+// concParam renders a stored parameter; quoted is the presentation style of the zone (both are legal SvcParams).
+func concParam(p string, quoted bool) string {
+	q := `"`
+	if !quoted {
+		q = ""
+	}
 	if v, ok := strings.CutPrefix(p, "ech="); ok {
-		return `ech="` + base64.StdEncoding.EncodeToString(pubCfg[v]) + `"`
+		return "ech=" + q + base64.StdEncoding.EncodeToString(pubCfg[v]) + q
 	}
 	k, v, _ := strings.Cut(p, "=")
-	return k + `="` + v + `"`
+	return k + "=" + q + v + q
 }
 func absParam(p string) string {
 	k, v, ok := strings.Cut(p, "=")
@@ -94,7 +99,7 @@ type fakeCF struct {
 
 func recName(n string) string { return n + ".z1.example" }
 
-func newFakeCF(init []pubRec) *fakeCF {
+func newFakeCF(init []pubRec, quoted bool) *fakeCF {
 	f := &fakeCF{}
 	// 45 records on 3 pages of 20; the abstract records sit on their page, fillers elsewhere
 	slots := make([]*fakeRec, 45)
@@ -104,7 +109,7 @@ func newFakeCF(init []pubRec) *fakeCF {
 		used[r.Page]++
 		var ps []string
 		for _, p := range r.Params {
-			ps = append(ps, concParam(p))
+			ps = append(ps, concParam(p, quoted))
 		}
 		slots[idx] = &fakeRec{ID: "rec-" + r.Name, Name: recName(r.Name), Value: strings.Join(ps, " "), Prio: 1, Tgt: "."}
 	}
@@ -190,13 +195,13 @@ func (f *fakeCF) handle(w http.ResponseWriter, req *http.Request) {
 	}
 }
 
-func replayPubCase(c *pubCase) (diff string) {
+func replayPubCase(c *pubCase, idx int) (diff string) {
 	defer func() {
 		if p := recover(); p != nil {
 			diff = fmt.Sprint("panic: ", p)
 		}
 	}()
-	f := newFakeCF(c.Init)
+	f := newFakeCF(c.Init, idx%3 != 1) // every third zone stores unquoted values
 	defer f.srv.Close()
 	u, _ := url.Parse(f.srv.URL)
 	u.Path = "/client/v4/zones"
@@ -280,7 +285,7 @@ func TestPublishCases(t *testing.T) {
 		go func(i int) {
 			defer wg.Done()
 			defer func() { <-sem }()
-			results[i] = replayPubCase(&cases[i])
+			results[i] = replayPubCase(&cases[i], i)
 		}(i)
 	}
 	wg.Wait()
